@@ -1,10 +1,42 @@
 import Dmn.Model.Sexp
+import Dmn.Model.Ops
+import Dmn.Driver.Codec
 
-/-! Driver handler for C09 — not implemented yet. -/
+/-! Driver handler for C09: `(c09 op2 <op> a b)`, `(c09 between x a b)`, `(c09 inrange x a lc b rc)`. -/
 
 namespace Dmn.Driver.C09
-open Dmn
+open Dmn Dmn.Value Dmn.Codec
 
-def handle (_args : List Sexp) : String := "(error not-implemented)"
+def op2 (name : String) (a b : Value) : Option Value :=
+  match name with
+  | "and" => some (and3 a b)
+  | "or" => some (or3 a b)
+  | "eq" => some (eqV a b)
+  | "nq" => some (nqV a b)
+  | "lt" => some (ltV a b)
+  | "le" => some (leV a b)
+  | "gt" => some (gtV a b)
+  | "ge" => some (geV a b)
+  | "in" => some (inV a b)
+  | _ => none
+
+def handle (args : List Sexp) : String :=
+  match args with
+  | [.atom "op2", .atom name, a, b] =>
+    match valueOfSexp a, valueOfSexp b with
+    | some a, some b =>
+      match op2 name a b with
+      | some v => toString (sexpOfValue v)
+      | none => "(error bad-op)"
+    | _, _ => "(error bad-value)"
+  | [.atom "between", x, a, b] =>
+    match valueOfSexp x, valueOfSexp a, valueOfSexp b with
+    | some x, some a, some b => toString (sexpOfValue (betweenV x a b))
+    | _, _, _ => "(error bad-value)"
+  | [.atom "inrange", x, a, lc, b, rc] =>
+    match valueOfSexp x, valueOfSexp a, Sexp.bool? lc, valueOfSexp b, Sexp.bool? rc with
+    | some x, some a, some lc, some b, some rc => toString (sexpOfValue (inRangeV x (.range a lc b rc)))
+    | _, _, _, _, _ => "(error bad-value)"
+  | _ => "(error bad-request)"
 
 end Dmn.Driver.C09
